@@ -73,6 +73,14 @@ structure Cand where
 
 def mixStr (seed : Nat) (s : String) : UInt64 := hash (seed, s)
 
+def insertAll {α : Type} (x : α) : List α → List (List α)
+  | [] => [[x]]
+  | y :: ys => (x :: y :: ys) :: (insertAll x ys).map (y :: ·)
+
+def perms {α : Type} : List α → List (List α)
+  | [] => [[]]
+  | x :: xs => (perms xs).flatMap (insertAll x)
+
 /-- the processing orders tried for every `PopReadyNodes` result: Go iterates the map in random order -/
 def orders (P : Prepared) : List Order :=
   let isGroup (id : String) : Bool := match lookup id P.items with
@@ -86,12 +94,21 @@ def orders (P : Prepared) : List Order :=
   let first (g : String) (rev : Bool) : Order := fun l =>
     let rest := sortedOrder (l.filter (fun a => a.1 != g))
     l.filter (fun a => a.1 == g) ++ (if rev then rest.reverse else rest)
+  -- every relative order of (up to four) dependency-group nodes popped together: which optional / one-of group is
+  -- resolved first decides what a consumer that becomes ready in between sees (the other orders keep the groups sorted)
+  let groupPerm (p : List Nat) : Order := fun l =>
+    let s := sortedOrder l
+    let gs := s.filter (fun x => isGroup x.1)
+    let rest := s.filter (fun x => !isGroup x.1)
+    let head := gs.take 4
+    (p.filter (· < head.length)).filterMap (fun i => head[i]?) ++ gs.drop 4 ++ rest
   [ sortedOrder,
     fun l => (sortedOrder l).reverse,
     byKey (fun id => (if isGroup id then "0" else "1") ++ id),
     byKey (fun id => (if isGroup id then "1" else "0") ++ id),
     byHash 1, byHash 2, byHash 3, byHash 4 ]
   ++ (groups.take 12).map (fun g => first g false) ++ (groups.take 12).map (fun g => first g true)
+  ++ ((perms [0, 1, 2, 3]).filter (· != [0, 1, 2, 3])).map groupPerm
 
 def stateFingerprint (s : LoopState) : UInt64 :=
   hash (toString (repr s.data), toString (repr (s.dag.nodes.map (fun n => (n.id, n.res.map (·.1), n.out.map (·.1))))),
